@@ -43,6 +43,8 @@ func QuietLogs() {
 // NopMetrics implements metrics.Metrics; Hook (optional) sees every emission (used as a yield point).
 type NopMetrics struct {
 	Hook func(kind, name string, tags []metrics.T)
+	// HookV (optional) also sees the emitted value
+	HookV func(kind, name string, v interface{}, tags []metrics.T)
 }
 
 func (m *NopMetrics) GetGrpcServerOption() []grpc.ServerOption    { return nil }
@@ -51,17 +53,26 @@ func (m *NopMetrics) EmitCounter(name string, v interface{}, t ...metrics.T) err
 	if m.Hook != nil {
 		m.Hook("counter", name, t)
 	}
+	if m.HookV != nil {
+		m.HookV("counter", name, v, t)
+	}
 	return nil
 }
 func (m *NopMetrics) EmitGauge(name string, v interface{}, t ...metrics.T) error {
 	if m.Hook != nil {
 		m.Hook("gauge", name, t)
 	}
+	if m.HookV != nil {
+		m.HookV("gauge", name, v, t)
+	}
 	return nil
 }
 func (m *NopMetrics) EmitHistogram(name string, v interface{}, t ...metrics.T) error {
 	if m.Hook != nil {
 		m.Hook("histogram", name, t)
+	}
+	if m.HookV != nil {
+		m.HookV("histogram", name, v, t)
 	}
 	return nil
 }
